@@ -10,6 +10,79 @@ import (
 // Facts for C02 / C05: how the stateful precompiles keep the EVM's StateDB and the bank in step.
 func init() { moreFacts = append(moreFacts, factsPrecompiles) }
 
+// Facts for C05: a failed Ethereum transaction runs on a branch of the state that is dropped; for C16: what the staking
+// precompile's validator queries copy out of the module's validator.
+func init() { moreFacts = append(moreFacts, factsTxBranch) }
+
+func factsTxBranch() {
+	cond, commitGuard := "unrecognised", false
+	if fd := funcDecl("x/evm/keeper/state_transition.go", "Keeper", "ApplyTransaction"); fd != nil {
+		ast.Inspect(fd.Body, func(n ast.Node) bool {
+			ifs, ok := n.(*ast.IfStmt)
+			if !ok {
+				return true
+			}
+			if strings.Contains(src(ifs.Body), "tmpCtx, commit = ctx.CacheContext()") && !strings.Contains(src(ifs.Body), "if ") {
+				cond = strings.Join(strings.Fields(src(ifs.Cond)), " ")
+			}
+			// commit() is reached only under `!res.Failed()` and only when the hooks returned no error
+			if strings.Join(strings.Fields(src(ifs.Cond)), " ") == "!res.Failed()" {
+				b := src(ifs.Body)
+				if strings.Count(b, "commit()") == 1 && strings.Contains(b, "else if commit != nil") && strings.Contains(b, "k.PostTxProcessing(tmpCtx, msg, receipt); err != nil") {
+					commitGuard = true
+				}
+			}
+			return true
+		})
+		if strings.Count(src(fd.Body), "commit()") != 1 {
+			commitGuard = false
+		}
+	}
+	emitStr("evmApplyTxBranchCondition", cond, "ApplyTransaction: the condition under which the message runs on a branch of the state (ctx.CacheContext)")
+	emitBool("evmApplyTxCommitsOnlyOnSuccess", commitGuard, "ApplyTransaction: the only commit() of that branch sits under !res.Failed(), after PostTxProcessing returned no error")
+	hooks := false
+	if f := parse("app/app.go"); f != nil {
+		ast.Inspect(f, func(n ast.Node) bool {
+			if as, ok := n.(*ast.AssignStmt); ok && len(as.Lhs) == 1 && exprName(as.Lhs[0]) == "app.EvmKeeper" {
+				t := src(as.Rhs[0])
+				if strings.Contains(t, "app.EvmKeeper.SetHooks(") && strings.Contains(t, "NewMultiEvmHooks(") && strings.Contains(t, "app.Erc20Keeper.Hooks()") {
+					hooks = true
+				}
+			}
+			return true
+		})
+	}
+	emitBool("appInstallsEvmHooks", hooks, "app.go installs at least the ERC20 hooks on the EVM keeper (so that k.hooks != nil in ApplyTransaction)")
+
+	// the ValidatorInfo literals of the staking precompile (validator / validators queries): field → source expression
+	var fields [][2]string
+	if f := parse("precompiles/staking/types.go"); f != nil {
+		ast.Inspect(f, func(n ast.Node) bool {
+			cl, ok := n.(*ast.CompositeLit)
+			if !ok || typeName(cl.Type) != "ValidatorInfo" {
+				return true
+			}
+			for _, e := range cl.Elts {
+				if kv, ok := e.(*ast.KeyValueExpr); ok {
+					v := strings.Join(strings.Fields(src(kv.Value)), " ")
+					v = strings.ReplaceAll(v, "res.Validator.", "v.")
+					if k := exprName(kv.Key); k == "Tokens" || k == "DelegatorShares" || k == "Status" || k == "Jailed" || k == "OperatorAddress" {
+						fields = append(fields, [2]string{k, v})
+					}
+				}
+			}
+			return true
+		})
+	}
+	sort.Slice(fields, func(i, j int) bool {
+		if fields[i][0] != fields[j][0] {
+			return fields[i][0] < fields[j][0]
+		}
+		return fields[i][1] < fields[j][1]
+	})
+	emitPairs("stakingValidatorInfoFields", fields, "every ValidatorInfo composite literal in precompiles/staking/types.go: field → expression (res.Validator. normalised to v.), for the fields the C16 comparison reads")
+}
+
 func factsPrecompiles() {
 	// every transaction method that runs a Cosmos message which can move coins
 	methods := map[string][]string{
